@@ -8,7 +8,9 @@ oracles:        every command / argument / list element / tuple value carries th
                 tree; every injected fault reports the line of the offending command or argument (None allowed, wrong never); a cycle is reported at
                 a command on the cycle; run-time errors of real bodies carry the line of their command/argument; the CLI marks that line;
                 sources of 10^5-10^6 characters / lines, thousands of commands (node lines, loader hand-over, fault lines, CLI mark); a finished
-                plug-in producer whose actual result a consumer refuses: the error carries a line of that consumer
+                plug-in producer whose actual result a consumer refuses: the error carries a line of that consumer; values written on a later line than their
+                `Name =` (a line break, blank lines, a comment after the `=`): the loader hands every command the argument's own line (renderings, models of
+                thousands of commands), and injected faults, run-time errors and the command-line tool's mark name that line, not the value's
 """
 import os
 import subprocess
@@ -75,6 +77,36 @@ def parse_history(ctx, count):
             ctx.fail("after earlier loads in the process, from_source reports %s instead of %s" % (got, want), {"source": src})
 
 
+class SplitScenario(Scenario):
+    """the same command file with every scalar / tuple value written on a later line than its `Name =`: a line break, blank lines, a comment after the `=` or
+    a comment line in between.  The argument starts on the line of its name (lists keep their bracket there: the elements follow below)."""
+
+    def _render(self):
+        out = []
+        self.lines = []
+        k = 0
+        for i, (res, cmd, args) in enumerate(self.commands):
+            for j in range(self.blank.get(i, 0)):
+                out.append("# comment %d" % j if j % 2 else "")
+            out.append("%s = %s(" % (res, cmd) if res is not None else "%s(" % cmd)
+            cmd_line = len(out)
+            arg_lines = []
+            for n, (name, value) in enumerate(args):
+                comma = "," if n + 1 < len(args) else ""
+                if isinstance(value, list):
+                    out.append("    %s = %s%s" % (name, progrun.render_value(value), comma))
+                    arg_lines.append(len(out))
+                    continue
+                k += 1
+                out.append("    %s =%s" % (name, ["", " # the value follows", "  ", "\t# c = ( ["][(k + i) % 4]))
+                arg_lines.append(len(out))
+                out += [[], [""], ["", "   "], ["        # on the next line"]][(k // 2 + len(name)) % 4]
+                out.append("        %s%s" % (progrun.render_value(value), comma))
+            out.append(")")
+            self.lines.append((cmd_line, arg_lines))
+        self.source = "\n".join(out) + "\n"
+
+
 def fault_lines(ctx, model):
     """faults at known lines, with blank/comment lines in front of commands"""
     rng = ctx.rng
@@ -84,7 +116,9 @@ def fault_lines(ctx, model):
     base, classes = progrun.library_classes(c12.LIBS)
     classes = sorted(classes, key=lambda c: c.name)
     scs = []
-    for _ in range(ctx.budget(15, 400)):
+    for case_no in range(ctx.budget(15, 400)):
+        # every other model writes its values on a later line than `Name =`: the fault is at the argument's line, not the value's
+        Scenario = (progrun.Scenario, SplitScenario)[case_no % 2]
         cls = rng.choice([c for c in classes if c.name != "NoOut"])
         call = c12.valid_call(rng, cls, env)
         cmds = c12.producers(env) + [call]
@@ -191,6 +225,16 @@ def runtime_lines(ctx):
         ("S = Sum(\n  InFieldNames = [\n    A,\n\n    F\n  ]\n)\n", "ResultIsFuzzy", [8, 11]),
         ("S = NormalizeCurve(InFieldName = A,\n RawValues = [\n  1,\n  1],\n NormalValues = [0, 1])\n", "DuplicateRawValues", [8]),
         ("S = NormalizeCurve(InFieldName = A,\n RawValues = [\n  1,\n  x],\n NormalValues = [0, 1])\n", "ParameterNotValid", [8, 10]),
+        # values written on a later line than `Name =` (line break, blank lines, a comment after the `=`): the argument starts on the line of its name
+        ("S = CvtToFuzzy(\n  InFieldName = A,\n  Direction =\n\n    Sideways\n)\n", "InvalidDirection", [7, 9]),
+        ("S = FuzzySelectedUnion(InFieldNames = [F],\n TruestOrFalsest = Truest,\n NumberToConsider =\n\n 3)\n", "InvalidNumberToConsider", [7, 9]),
+        ("S = FuzzySelectedUnion(InFieldNames = [F],\n TruestOrFalsest = # which end\n   Neither,\n NumberToConsider = 1)\n", "InvalidTruestOrFalsest", [7, 8]),
+        ("S = Copy(\n  InFieldName =\n    Nope\n)\n", "ResultDoesNotExist", [7, 8]),
+        ("S = CvtToFuzzy(\n  InFieldName = # the input\n\n    F\n)\n", "ResultIsFuzzy", [7, 8]),
+        ("S = FuzzyNot(\n\n  InFieldName =\n  # a comment line\n    A\n)\n", "ResultNotFuzzy", [7, 9]),
+        ('S = EEMSRead(\n  InFileName =\n    "nofile.csv",\n  InFieldName = a)\n', "PathDoesNotExist", [7, 8]),
+        ("S = CvtToFuzzy(InFieldName = A, TrueThreshold =\n   high)\n", "ParameterNotValid", [7]),
+        ("S = CvtToFuzzy(\n  InFieldName = A,\n  Metadata =\n\n    notatuple\n)\n", "ParameterNotValid", [7, 9]),
     ]
     # later commands that use the same argument names on other lines (and a later program that does): an error's line is its own command's
     trailer = ('T1 = CvtToFuzzy(InFieldName = A,\n\n  Direction = LowToHigh)\nT2 = NormalizeCurve(InFieldName = A,\n\n\n  RawValues = [1, 2], NormalValues = [0, 1])\n'
@@ -253,7 +297,10 @@ def cli_marks(ctx, count, model=None):
                 lines.append('lines%s"])' % x)
         fault, err = rng.choice([
             (["Bad = Nope(X = 1)"], 0), (['Bad = EEMSRead(InFileName = "in.csv")'], 0), (["Bad = EEMSRead(", '  InFileName = "nofile.csv",', "  InFieldName = a)"], 1),
-            (["Bad = Normalize(", "  InFieldName = V0,", "  StartVal = [1, 2]", ")"], 2), (['Bad = EEMSRead(InFileName = "in.csv", InFieldName = a, Bogus = 1)'], 0)])
+            (["Bad = Normalize(", "  InFieldName = V0,", "  StartVal = [1, 2]", ")"], 2), (['Bad = EEMSRead(InFileName = "in.csv", InFieldName = a, Bogus = 1)'], 0),
+            # the value on a later line than its `Name =`: the argument's line is marked
+            (["Bad = EEMSRead(", "  InFileName =", '    "nofile.csv",', "  InFieldName = a)"], 1), (["Bad = Normalize(", "  InFieldName = V0,", "  StartVal = # where the range starts", "", "    abc", ")"], 2),
+            (["Bad = EEMSRead(", '  InFileName = "in.csv", InFieldName = a,', "  Bogus =", "", "    1)"], 2), (["Bad = Copy(", "  InFieldName =", "  # which one", "    NoSuchResult", ")"], 1)])
         if fault[0].startswith("Bad = Normalize") and not any(l.startswith("V0 =") for l in lines):
             lines.insert(0, 'V0 = EEMSRead(InFileName = "in.csv", InFieldName = a)')
         true_line = len(lines) + err + 1
@@ -384,7 +431,8 @@ def large_sources(ctx):
                 lines.append("    Many = [c_%d," % (i - 1))
                 al = len(lines)
                 lines.append("            c_0],")
-                lines.append("    Fail = no")
+                # (every third command writes the value of Fail below its name: the argument's line is the name's)
+                lines += ["    Fail = no"] if i % 3 else ["    Fail =" + ["", " # c"][i % 2]] + [""] * (i % 2) + ["        no"]
                 lines.append(")")
                 truth["c_%d" % i] = (cl, {"Many": (al, [al, al + 1]), "Fail": (al + 2, None)})
                 if i == at:
@@ -588,9 +636,22 @@ def run(ctx):
         ast = render.rand_ast(rng, max_cmds=rng.choice([1, 3, 6]))
         src, exp = render.render(ast, rng, rng.choice(["\n", "\r\n"]), wild=True)
         srcs.append(src); exps.append(exp)
+    # every value on a later line than its `Name =` (line break, blank lines, a comment after the `=`, a comment line in between)
+    for k in range(ctx.budget(15, 600)):
+        ast = render.rand_ast(rng, max_cmds=rng.choice([1, 3]))
+        src, exp = render.render(ast, rng, "\r\n" if k % 3 == 2 else "\n", wild=k % 2 == 0, split_eq=True)
+        srcs.append(src); exps.append(exp)
     answers = model.ask([parsing.model_line(s) for s in srcs])
     for src, exp, ans in zip(srcs, exps, answers):
         real = parsing.real_parse(src)
+        # the loader's hand-over: every command is handed its own line and, per argument, the line the argument starts on (the line of its name, wherever
+        # the value stands) and the lines of lists and their elements
+        want = parsing.expected_load(src) if real == exp else None
+        if want is not None:
+            got = parsing.real_load(src)
+            ctx.count("loaded_renderings")
+            if got != want:
+                ctx.fail("Program.from_source hands a command / argument / list element on with another line than the one it starts on", {"source": src, "true": want[:800], "loaded": got[:800]})
         ctx.case(src, sample={"source": src[:300], "true_tree": exp[:200]})
         ctx.count("rendering_lines:%d" % min(20, src.count("\n")))
         if ans != "outside" and parsing.normalise_model(ans) not in (real, "outside"):
